@@ -828,7 +828,8 @@ def run():
     n_bases = n_rewritten = 0
     for batch in range(ck.n(1, 5) * mult):          # batches bound the memory of the thorough tier
         t0 = time.time()
-        cases = gen_batch(ck, rng, ck.n(320, 300), ck.n(90, 200), ck.n(25, 40), site_hist)
+        # quick tier: a sample of the random bases (every site of each); the directed families are not sampled.  thorough: everything x 5
+        cases = gen_batch(ck, rng, ck.n(190, 300), ck.n(55, 200), ck.n(20, 40), site_hist, n_sorted=ck.n(36, 60))
         t1 = time.time()
         comp, execd, model = run_all(cases)
         t2 = time.time()
